@@ -753,4 +753,41 @@ func (ch c13) Run(c *core.Ctx) {
 		}
 		ch.runRows(c, env, core.NewRng(c.Seed, "C13rows", 0, i), idx)
 	}
+	// one statement that asks for COPY data twice (a second CopyIn on the same writer once the first
+	// stream has ended): each stream is announced and delivered like the first
+	if c.Batch == 1%nb && c.Begin(4000000) {
+		for v, ends := range [][2][]byte{{pg.CopyDone(), pg.CopyDone()}, {pg.CopyDone(), pg.CopyFail("second stream aborted")}} {
+			first := &hs.CopyPlan{Format: wire.TextFormat, MaxReads: -1, OnErr: "propagate", NoComplete: true}
+			second := &hs.CopyPlan{Format: wire.TextFormat, MaxReads: -1, OnErr: "propagate"}
+			sess := &hs.Sess{Progs: map[string]*hs.Prog{"twice": {Stmts: []*hs.Stmt{{ID: "twice", Cols: textCols(1), Ops: []hs.Op{{K: "copy", Copy: first}, {K: "copy", Copy: second}}}}}}}
+			cl := hs.NewClient(env.Dial(sess))
+			if err := cl.StartupOK("u"); err != nil {
+				continue
+			}
+			var got []string
+			for _, in := range [][]byte{pg.Query("twice"), pg.CopyData([]byte("a1\n")), pg.CopyData([]byte("a2\n")), ends[0], pg.CopyData([]byte("b1\n")), ends[1], pg.Query("twice")} {
+				out, _ := cl.Step(in)
+				got = append(got, pg.Types(mustMsgs(out)))
+			}
+			want := []string{"TG", "", "", "G", "", "CZ", "TG"}
+			if v == 1 {
+				want[5] = "EZ"
+			}
+			var chunks []string
+			for _, e := range cl.C.Events() {
+				if e.Kind == "cb" && e.Name == "copyread" {
+					if r := e.Data.(hs.CopyRec); r.ErrNil {
+						chunks = append(chunks, string(r.Chunk))
+					}
+				}
+			}
+			c.Count("statements_with_two_copy_streams", 1)
+			c.Eval(fmt.Sprintf("two copy streams %d", v), true)
+			if strings.Join(got, "|") != strings.Join(want, "|") || strings.Join(chunks, "") != "a1\na2\nb1\n" {
+				c.Violate("second-stream", "a second COPY-in of the same statement is not announced and delivered like the first", fmt.Sprintf("replies %q want %q; payloads seen by the handler %q want a1 a2 b1", got, want, chunks), map[string]any{"variant": v})
+			}
+			cl.C.CloseWrite()
+			cl.C.WaitClosed()
+		}
+	}
 }
